@@ -101,6 +101,37 @@ type Explorer struct {
 	cache     map[string]smt.Result
 	deadline  time.Time
 	Trace     bool
+	Emitted   []string
+	assumed   map[string]bool
+}
+
+// Solvers returns the live/used solver handles (for statistics).
+func (e *Explorer) Solvers() []*smt.Solver {
+	var out []*smt.Solver
+	if e.Lin != nil {
+		out = append(out, e.Lin)
+	}
+	if e.NL != nil {
+		out = append(out, e.NL)
+	}
+	return out
+}
+
+// Assumptions lists the stubs and assumptions that were actually used.
+func (e *Explorer) Assumptions() []string {
+	var out []string
+	for k := range e.assumed {
+		out = append(out, k)
+	}
+	sort.Strings(out)
+	return out
+}
+
+func (m *Machine) noteAssumption(s string) {
+	if m.E.assumed == nil {
+		m.E.assumed = map[string]bool{}
+	}
+	m.E.assumed[s] = true
 }
 
 type Options struct {
@@ -113,6 +144,10 @@ type Options struct {
 	InitPkgs   []string
 	MaxSeconds int
 	Twin       bool // reachability twin: every vx.Assert becomes assert(false)
+	// StopOnFinding ends the exploration at the first finding.
+	StopOnFinding bool
+	// Params are harness parameters (vx.Param).
+	Params map[string]string
 }
 
 func (e *Explorer) solverFor(ts []*smt.Term) *smt.Solver {
@@ -217,6 +252,7 @@ type Machine struct {
 	curSite  string
 	steps    int64
 	events   []string
+	pcSet    map[*smt.Term]bool
 }
 
 type lockState struct {
@@ -234,9 +270,13 @@ func (m *Machine) unsupported(format string, args ...interface{}) {
 }
 
 func (m *Machine) assume(t *smt.Term) {
-	if t.IsTrue() {
+	if t.IsTrue() || m.pcSet[t] {
 		return
 	}
+	if m.pcSet == nil {
+		m.pcSet = map[*smt.Term]bool{}
+	}
+	m.pcSet[t] = true
 	m.pc = append(m.pc, t)
 }
 
@@ -253,6 +293,12 @@ func (m *Machine) Branch(cond *smt.Term) bool {
 		return true
 	}
 	if cond.IsFalse() {
+		return false
+	}
+	if m.pcSet[cond] {
+		return true
+	}
+	if m.pcSet[m.C.Not(cond)] {
 		return false
 	}
 	e := m.E
@@ -405,7 +451,7 @@ func (m *Machine) input(label, kind string, n, w int) []*smt.Term {
 	label = m.uniqueLabel(sanitize(label))
 	ts := make([]*smt.Term, n)
 	for i := range ts {
-		name := "in!" + label
+		name := fmt.Sprintf("in!%s!w%d", label, w)
 		if kind == "bytes" || kind == "string" {
 			name = fmt.Sprintf("in!%s!%d", label, i)
 		}
@@ -612,6 +658,9 @@ func (e *Explorer) Run(fn *ssa.Function) (complete bool) {
 		e.runPath(m, fn)
 		e.Stats.Paths++
 		e.Stats.Instrs += m.steps
+		if e.Opt.StopOnFinding && len(e.Findings) > 0 {
+			return false
+		}
 		if !e.backtrack() {
 			return true
 		}
